@@ -144,6 +144,12 @@ def pair_random(vd, tier, sd, tag, pollat=True, probe=False):
             a[a.index("--runs") + 1] = 60
         run_harness(exe, a)
         files.append(tf)
+    if pollat and tag in ("c02",):
+        # zero-window runs only (small receive buffer, sleeping reader, zero-window ACKs overtaken by the window update,
+        # loss right after the window re-opens): the stall patterns C02 names live here
+        tf = os.path.join(OUT, "traces", "tcp.pair.%s.zw.ndjson" % tag)
+        run_harness(exe, ["tcp-pair", "--seed", sd * 1000 + 500, "--runs", 600 if tier == "quick" else 5000, "--out", tf, "--pollat", "--zwr"])
+        files.append(tf)
     return files
 
 
@@ -203,8 +209,14 @@ def replay_generic(obj, vd, prop):
         a = ["tcp-pair", "--seed", ev0["seed"], "--runs", ev0["run"] + 1, "--only", ev0["run"], "--out", tf]
         if ev0.get("pollat"):
             a.append("--pollat")
-        for fl in obj["ctx"].get("flags", []):
-            a.append(fl)
+        flags = list(obj["ctx"].get("flags", []))
+        ar = ev0.get("args", {})
+        for k in ("small", "probe", "zwr"):
+            if ar.get(k) and "--" + k not in flags:
+                flags.append("--" + k)
+        if ar.get("maxbytes") and ar["maxbytes"] != 20000:
+            flags += ["--maxbytes", ar["maxbytes"]]
+        a += flags
         run_harness(exe, a)
     elif world == "tcp_peer" and ev0.get("src") == "random":
         run_harness(exe, ["tcp-peer-random", "--seed", ev0["seed"], "--runs", ev0["run"] + 1, "--only", ev0["run"], "--steps", 150, "--out", tf])
